@@ -90,8 +90,6 @@ def classifiedRaiseSites : List Site := [
   u "rattr/models/context/_context.py" "Context.clear" "TypeError" "never called",
   u "rattr/models/context/_context.py" "Context.update" "TypeError" "never called",
   u "rattr/models/context/_root_context.py" "compile_root_context" "TypeError" "ast.parse always returns a Module",
-  r "rattr/models/context/_root_context.py" "RootContextBuilder.visit_starred_relative_import" "ValueError" "K23",
-  r "rattr/models/context/_root_context.py" "RootContextBuilder.visit_relative_import" "ValueError" "K23",
   u "rattr/models/symbol/_symbol.py" "Symbol.__attrs_pre_init__" "NotImplementedError" "only concrete subclasses are instantiated",
   u "rattr/models/symbol/_symbol.py" "Symbol.__lt__" "TypeError" "symbols are only sorted among themselves",
   u "rattr/models/symbol/_symbol.py" "AnyCallInterface.from_fn_def" "NotImplementedError" "never called on AnyCallInterface",
@@ -128,17 +126,17 @@ def libraryRows : List (String × String) := [
   ("K8-frozen", "FileNotFoundError in read.__enter__: spec.origin == 'frozen' for stdlib modules at follow level 3"),
   ("K12", "re.error from re.compile on a malformed -x / -F pattern"),
   ("K20", "UnicodeDecodeError / SyntaxError(U+FEFF) in read + ast.parse: source files are read as UTF-8 text ignoring coding cookie and BOM"),
-  ("K21", "RecursionError in resolve_import on a re-export cycle a <-> b"),
-  ("K24", "RuntimeError('Symlink loop from …') in pathlib.Path.resolve, called by isort.place_module from is_in_stdlib: an import whose first component is a directory symlink loop below the working directory"),
-  ("K25", "IsADirectoryError / FileNotFoundError / FileExistsError in write_cache_file: `-C PATH` with a PATH that cannot be written (a directory, a dangling link, a file in the way of its directory)")
+  ("K21", "RecursionError in resolve_import on a re-export cycle a <-> b")
 ]
 
-/-- K23 (reported by a reviewer, confirmed): the `raise ValueError  # … so never here` of the two relative-import
-visitors IS reachable: `derive_module_name_from_path(current_file)` answers `None` whenever no right-suffix of the
-file's dotted path is an importable module — the target lies outside the module search path
-(`rattr ../other/t.py`, `rattr /abs/elsewhere/t.py`), below a directory that is no identifier (`a.b/t.py`), or has
-no `.py` suffix — and the file holds a relative import (`from .x import y`, `from .x import *`). -/
-def k23Note : String := "visit_relative_import / visit_starred_relative_import: derive_module_name_from_path(current file) is None"
+/-- K23 (reported by a reviewer, confirmed in round 3, FIXED upstream in c5833ef): the `raise ValueError  # … so never
+here` of the two relative-import visitors was reachable: `derive_module_name_from_path(current_file)` answers `None`
+whenever no right-suffix of the file's dotted path is an importable module — the target lies outside the module search
+path (`rattr ../other/t.py`, `rattr /abs/elsewhere/t.py`), below a directory that is no identifier (`a.b/t.py`), or has
+no `.py` suffix — and the file holds a relative import. Both sites are `error.fatal(…)` now; the two `raise` statements
+are gone from the raise-site table (Tie A), the guard is pinned by `Generated.C07.fixGuards` and modelled in
+`RattrModel/RelBase.lean`. -/
+def k23Note : String := "visit_relative_import / visit_starred_relative_import: derive_module_name_from_path(current file) is None -> error.fatal since c5833ef"
 
 /-- K22 (found while proving the names invariant of §3): `unbind_name` raises `ValueError("never")`
 when a Name whose basename is `getattr` / `hasattr` / `setattr` / `delattr` (`names_of` keeps the
@@ -150,9 +148,23 @@ def k22Note : String := "unbind_name: Name('q.x.m', basename='getattr') does not
 /-- Rows of the first pinned tree that upstream `fix:` commits removed (kept for the record; the corpus of
 py/props/c07.py still runs their witnesses, so a regression is reported as a violation). -/
 def fixedRows : List (String × String × String) := [
+  ("K23", "c5833ef", "ValueError ('never here') in visit_relative_import / visit_starred_relative_import when the current file has no derivable module name"),
+  ("K24", "353eacf", "RuntimeError('Symlink loop from …') out of isort.place_module via is_in_stdlib: an import whose first component is a directory symlink loop below the working directory"),
+  ("K25", "bcdf6de", "IsADirectoryError / FileNotFoundError / FileExistsError out of write_cache_file: `-C PATH` with a PATH that cannot be written"),
   ("K19", "16f7ad6", "TypeError / cattrs ClassValidationError in deserialise on a cache file that is JSON but not a cache"),
   ("TOML", "f47ae20", "TypeError Config.__init__(): error.fatal was called before the Config singleton existed")
 ]
+
+/-- What keeps K23 / K24 / K25 fixed, as the source says it now (`Generated.C07.fixGuards` must equal this list): the
+two `if base is None:` bodies start with `error.fatal`, `is_in_stdlib` answers `False` when `place_module` raises an
+`OSError` / `RuntimeError`, `write_cache_file` wraps `mkdir` + `write_text` in `except OSError -> error.fatal`, and
+`main` writes the cache through that function only. -/
+def pinnedGuards : List (String × String) :=
+  [("_root_context.visit_starred_relative_import:if base is None", "error.fatal"),
+   ("_root_context.visit_relative_import:if base is None", "error.fatal"),
+   ("module_locator.util.is_in_stdlib:try section = place_module(name)", "except (OSError, RuntimeError) -> return False"),
+   ("__main__.write_cache_file:try cache_file.parent.mkdir; cache_file.write_text", "except OSError -> error.fatal"),
+   ("__main__.main:cache-write", "config.arguments.cache_file is not None -> write_cache_file")]
 
 /-- The rows that have at least one reachable raise / assert site. -/
 def reachableRows : List String :=
@@ -472,3 +484,4 @@ end
 def NoCrashShapeFn (body : List Node) : Bool := okB false body
 
 end Rattr.Crash
+
